@@ -236,3 +236,60 @@ def replay_case(ctx, mod, data):
             print('(matches a known finding)')
         return [{'signature': sig, 'detail': v.detail}]
     return []
+
+
+def summaries_check(d, body, version, requested_classes, case):
+    """C02(3): every provider named in an allocation request has a
+    provider_summaries entry whose capacity/used (and traits, parent/root
+    where the version exposes them) equal the values derived from the dump."""
+    w = acref.World(d)
+    sums = body['provider_summaries']
+    named = set()
+    for ar in body['allocation_requests']:
+        al = ar['allocations']
+        if isinstance(al, list):
+            named |= {e['resource_provider']['uuid'] for e in al}
+        else:
+            named |= set(al)
+    for u in sorted(named):
+        if u not in d.providers:
+            raise Violation({'clause': 'names-unknown-provider'},
+                            {'case': case, 'provider': u})
+        if u not in sums:
+            raise Violation({'clause': 'named-provider-without-summary'},
+                            {'case': case, 'provider': u})
+    for u, s in sums.items():
+        if u not in d.providers:
+            raise Violation({'clause': 'summary-of-unknown-provider'},
+                            {'case': case, 'provider': u})
+        want = {}
+        for (p, rc), inv in d.inventories.items():
+            if p != u:
+                continue
+            if version < 27 and rc not in requested_classes:
+                continue
+            want[rc] = {'capacity': int((inv['total'] - inv['reserved']) *
+                                        inv['allocation_ratio']),
+                        'used': w.usage.get((p, rc), 0)}
+        if s['resources'] != want:
+            raise Violation({'clause': 'summary-resources-wrong'},
+                            {'case': case, 'provider': u,
+                             'got': s['resources'], 'want': want})
+        if version >= 17:
+            if sorted(s['traits']) != sorted(w.traits[u]) or \
+                    len(s['traits']) != len(set(s['traits'])):
+                raise Violation({'clause': 'summary-traits-wrong'},
+                                {'case': case, 'provider': u,
+                                 'got': s['traits'],
+                                 'want': sorted(w.traits[u])})
+        elif 'traits' in s:
+            raise Violation({'clause': 'summary-traits-before-1.17'},
+                            {'case': case})
+        if version >= 29:
+            if s['parent_provider_uuid'] != w.parent[u] or \
+                    s['root_provider_uuid'] != w.root[u]:
+                raise Violation({'clause': 'summary-parent-root-wrong'},
+                                {'case': case, 'provider': u,
+                                 'got': [s['parent_provider_uuid'],
+                                         s['root_provider_uuid']],
+                                 'want': [w.parent[u], w.root[u]]})
